@@ -769,7 +769,10 @@ class SInt(SNum):
     def __hash__(self):
         # set / dict membership of an integer proxy (e.g. `idx in seen`): hashing by the term would make two different terms
         # with equal values miss each other; fork over the feasible values instead, so hash and == agree with int semantics
-        return hash(concretize(self))
+        try:
+            return hash(concretize(self))
+        except Inconclusive:
+            return hash(self.z)      # too many feasible values to fork over: fall back to the term (the behaviour before round 4)
 
     def __round__(self, n=None):
         return self
